@@ -5,7 +5,7 @@ package keeper
 
 //@ wire (Keeper).storeKey = store tibc
 
-//@ spec routeAllowed(S: store, src: str, dst: str, port: str): bool
+//@ spec routeAllowed(rules: opt, src: str, dst: str, port: str): bool
 
 //@ extern (Keeper).Authenticate(ctx, sourceChain, destinationChain, port) (result)
-//@   ensures def: result <==> routeAllowed(tibc, sourceChain, destinationChain, port)
+//@   ensures def: result <==> routeAllowed(tibc[routingRules()], sourceChain, destinationChain, port)
